@@ -2,6 +2,7 @@ package lru
 
 import (
 	"bytes"
+	"encoding/binary"
 	"encoding/gob"
 	"errors"
 	"fmt"
@@ -207,6 +208,30 @@ func buildImage(c *hx.Ctx, r *hx.Rng, name string, gzip bool) (*image, error) {
 	return im, nil
 }
 
+// imageRegimes reads, with a parser of its own, how many blocks of each kind the image has: the cache
+// is shared by fragment blocks and by the 8 KiB metadata blocks of the inode and directory tables, and
+// "a cache too small for the working set" means more such blocks than cache slots.
+func imageRegimes(img []byte) map[string]int {
+	st := map[string]int{}
+	defer func() { _ = recover() }()
+	le := binary.LittleEndian
+	frags := int(le.Uint32(img[16:]))
+	inoTab, dirTab, fragTab := int(le.Uint64(img[64:])), int(le.Uint64(img[72:])), int(le.Uint64(img[80:]))
+	count := func(from, to int) (n int) {
+		for o := from; o+2 <= to && o+2 <= len(img); n++ {
+			o += 2 + int(le.Uint16(img[o:])&0x7FFF)
+		}
+		return n
+	}
+	st["fragment_blocks"] = frags
+	st["inode_table_metadata_blocks"] = count(inoTab, dirTab)
+	if frags > 0 && fragTab+8 <= len(img) {
+		st["directory_table_metadata_blocks"] = count(dirTab, int(le.Uint64(img[fragTab:])))
+	}
+	st["fragment_table_metadata_blocks"] = (frags + 511) / 512
+	return st
+}
+
 func pathDir(p string) string {
 	if i := strings.LastIndexByte(p, '/'); i >= 0 {
 		return p[:i]
@@ -215,8 +240,36 @@ func pathDir(p string) string {
 }
 func pathBase(p string) string { return p[strings.LastIndexByte(p, '/')+1:] }
 
+// faultDev fails a ReadAt with probability pct% while *on is 1 (transient device errors: the failing
+// fetch of the Lean machine, here under real concurrency). Nothing is read on a failure.
+type faultDev struct {
+	backend.Storage
+	on       *int32
+	pct      int
+	seed     uint64
+	ctr      uint64
+	injected *int64
+}
+
+var errInjectedRead = errors.New("verif: injected read failure")
+
+func (d *faultDev) ReadAt(p []byte, off int64) (int, error) {
+	if atomic.LoadInt32(d.on) == 1 {
+		h := splitmix(d.seed ^ (atomic.AddUint64(&d.ctr, 1) * 0x9E3779B97F4A7C15))
+		if int(h%100) < d.pct {
+			atomic.AddInt64(d.injected, 1)
+			return 0, errInjectedRead
+		}
+	}
+	return d.Storage.ReadAt(p, off)
+}
+
 // open opens the image for reading on a fresh device; hook is called in every ReadAt.
 func (im *image) open(lockFree bool, hook func(off int64, n int)) (*squashfs.FileSystem, error) {
+	return im.openWrapped(lockFree, hook, nil)
+}
+
+func (im *image) openWrapped(lockFree bool, hook func(off int64, n int), wrap func(backend.Storage) backend.Storage) (*squashfs.FileSystem, error) {
 	var st backend.Storage
 	if lockFree {
 		st = &roDev{b: im.bytes, hook: hook}
@@ -228,7 +281,54 @@ func (im *image) open(lockFree bool, hook func(off int64, n int)) (*squashfs.Fil
 		d.ReadHook = hook
 		st = d
 	}
+	if wrap != nil {
+		st = wrap(st)
+	}
 	return squashfs.Read(st, int64(len(im.bytes)), 0, blockSize)
+}
+
+// isIOError: the complaint of readTask is an error RETURNED by the library (not wrong data, not a panic).
+func isIOError(bad string) bool {
+	for _, p := range []string{"ReadDir: ", "ReadFile: ", "OpenFile: ", "ReadAll: ", "Read: ", "Seek: "} {
+		if strings.HasPrefix(bad, p) {
+			return true
+		}
+	}
+	return false
+}
+
+// cleanPass reads every file and lists every directory once, sequentially: after injected read failures
+// have stopped nothing of them may be left behind in the cache.
+func cleanPass(fsys *squashfs.FileSystem, im *image) (bad string) {
+	defer func() {
+		if p := recover(); p != nil {
+			bad = fmt.Sprintf("panic: %v", p)
+		}
+	}()
+	for _, p := range im.paths {
+		b, err := fsys.ReadFile(p)
+		if err != nil {
+			return fmt.Sprintf("ReadFile %s: %v", p, err)
+		}
+		if !bytes.Equal(b, im.files[p]) {
+			return fmt.Sprintf("ReadFile %s: %d bytes differ from the %d source bytes", p, len(b), len(im.files[p]))
+		}
+	}
+	for _, d := range im.dpath {
+		ents, err := fsys.ReadDir(d)
+		if err != nil {
+			return fmt.Sprintf("ReadDir %s: %v", d, err)
+		}
+		var names []string
+		for _, e := range ents {
+			names = append(names, e.Name())
+		}
+		sort.Strings(names)
+		if strings.Join(names, "\x00") != strings.Join(im.dirs[d], "\x00") {
+			return fmt.Sprintf("ReadDir %s lists %d names, source has %d", d, len(names), len(im.dirs[d]))
+		}
+	}
+	return ""
 }
 
 // ---- one reader task -------------------------------------------------------------------------
@@ -351,11 +451,16 @@ type runCfg struct {
 	yieldPct int
 	tasks    int
 	seed     uint64
+	faultPct int // > 0: this share of the backend reads fails while the readers run
 }
 
 func (k runCfg) String() string {
-	return fmt.Sprintf("img=%d goroutines=%d gomaxprocs=%d cache=%s resize=%v getsize=%v yield=%d%% tasks=%d seed=%d",
+	s := fmt.Sprintf("img=%d goroutines=%d gomaxprocs=%d cache=%s resize=%v getsize=%v yield=%d%% tasks=%d seed=%d",
 		k.img, k.g, k.procs, k.cache, k.resize, k.getSize, k.yieldPct, k.tasks, k.seed)
+	if k.faultPct > 0 {
+		s += fmt.Sprintf(" failing-reads=%d%%", k.faultPct)
+	}
+	return s
 }
 
 var cacheBytes = map[string]int{"0": 0, "1": blockSize, "few": 3 * blockSize, "default": -12345}
@@ -366,6 +471,8 @@ type runResult struct {
 	tasks    int64
 	reads    int64
 	wall     time.Duration
+	injected int64 // backend reads failed on purpose
+	faulted  int64 // reader tasks that returned an error while reads were failing
 }
 
 func splitmix(x uint64) uint64 {
@@ -391,6 +498,14 @@ func runConcurrent(im *image, k runCfg, lockFree bool, deadline time.Duration) (
 			time.Sleep(time.Duration(h>>20%50) * time.Microsecond)
 		}
 	}
+	var faultsOn int32
+	var injected, faulted int64
+	var wrap func(backend.Storage) backend.Storage
+	if k.faultPct > 0 {
+		wrap = func(st backend.Storage) backend.Storage {
+			return &faultDev{Storage: st, on: &faultsOn, pct: k.faultPct, seed: k.seed, injected: &injected}
+		}
+	}
 	var fsys *squashfs.FileSystem
 	var err error
 	func() {
@@ -399,7 +514,7 @@ func runConcurrent(im *image, k runCfg, lockFree bool, deadline time.Duration) (
 				err = fmt.Errorf("panic: %v", p)
 			}
 		}()
-		fsys, err = im.open(lockFree, hook)
+		fsys, err = im.openWrapped(lockFree, hook, wrap)
 	}()
 	if err != nil {
 		res.bad = fmt.Sprintf("squashfs.Read: %v", err)
@@ -438,6 +553,11 @@ func runConcurrent(im *image, k runCfg, lockFree bool, deadline time.Duration) (
 			for i := 0; i < k.tasks; i++ {
 				what, bad := readTask(fsys, im, r)
 				atomic.AddInt64(&tasks, 1)
+				if bad != "" && k.faultPct > 0 && isIOError(bad) {
+					// an error is the right answer while reads fail; wrong bytes or a panic never are
+					atomic.AddInt64(&faulted, 1)
+					continue
+				}
 				if bad != "" {
 					fail(fmt.Sprintf("goroutine %d task %d (%s): %s", g, i, what, bad))
 					return
@@ -445,6 +565,8 @@ func runConcurrent(im *image, k runCfg, lockFree bool, deadline time.Duration) (
 			}
 		}(g, r)
 	}
+	atomic.StoreInt32(&faultsOn, 1) // opening the image was undisturbed
+	defer func() { res.injected, res.faulted = atomic.LoadInt64(&injected), atomic.LoadInt64(&faulted) }()
 	var rwg sync.WaitGroup
 	if k.resize {
 		rwg.Add(1)
@@ -509,6 +631,14 @@ func runConcurrent(im *image, k runCfg, lockFree bool, deadline time.Duration) (
 	close(stop)
 	rwg.Wait()
 	res.tasks, res.reads = atomic.LoadInt64(&tasks), int64(atomic.LoadUint64(&reads))
+	if k.faultPct > 0 {
+		// the failures were transient: once they stop, every file and directory must read back exactly
+		// (a failed fetch must not leave a short, empty or foreign block in the cache)
+		atomic.StoreInt32(&faultsOn, 0)
+		if bad := cleanPass(fsys, im); bad != "" {
+			fail(fmt.Sprintf("after %d injected read failures had stopped, a sequential pass over the image: %s", atomic.LoadInt64(&injected), bad))
+		}
+	}
 	// quiescent: the real cache must be a well-formed list of at most max(1, maxBlocks) blocks
 	if l := fsys.CacheForVerif(); l != nil {
 		func() {
@@ -612,6 +742,9 @@ func concurrent(c *hx.Ctx, isRace bool) {
 		if len(im.paths) == 0 {
 			continue
 		}
+		for k, v := range imageRegimes(im.bytes) {
+			c.StatN("concurrent.image_"+k+"."+name, v)
+		}
 		c.StatN("concurrent.image_files."+name, len(im.paths))
 		c.StatN("concurrent.image_bytes."+name, len(im.bytes))
 		imgs = append(imgs, im)
@@ -672,6 +805,9 @@ func concurrent(c *hx.Ctx, isRace bool) {
 				k.resize, k.getSize, k.g = true, true, 4
 			}
 		}
+		if i%6 == 5 && c.Args["scenario"] != "getsize" { // every sixth run: transient read failures
+			k.faultPct = []int{2, 10}[(i/6)%2]
+		}
 		id := fmt.Sprintf("%s/%d", prefix, i)
 		if !c.Want(id) {
 			continue
@@ -683,6 +819,11 @@ func concurrent(c *hx.Ctx, isRace bool) {
 		c.Stat(fmt.Sprintf("%s.gomaxprocs.%02d", prefix, k.procs))
 		if k.resize {
 			c.Stat(prefix + ".with_concurrent_SetCacheSize")
+		}
+		if k.faultPct > 0 {
+			c.Stat(prefix + ".with_transient_read_failures")
+			c.StatN(prefix+".injected_read_failures", int(res.injected))
+			c.StatN(prefix+".reader_tasks_refused_while_reads_failed", int(res.faulted))
 		}
 		c.StatN(prefix+".reader_tasks", int(res.tasks))
 		c.StatN(prefix+".backend_reads", int(res.reads))
